@@ -315,6 +315,10 @@ func c17(c *core.Ctx, r *core.Report) {
 		r.Floor("operations on lifetime count/sum", n, 2)
 	})
 
+	rule(r, "C17.R7", "while recording, a period's extremes only move outwards: every plain store to the maximum (minimum) cell in IterationDurations.Add stores the duration itself and lies, on every path, behind a test that the duration is larger (smaller) than the cell's current value or that the cell is still unset (== 0) — an unconditional store (`first sample sets both`) erases extremes a concurrent drain has not yet taken, and a wrong test makes Min/Max something else than the smallest/largest recorded duration", func() {
+		extremesMoveOutwards(c, r)
+	})
+
 	rule(r, "C17.R4", "the lifetime minimum is overwritten by a period's minimum only on paths where it is unset (== 0) or the period's minimum is set (> 0)", func() {
 		upd := c.MustFn(ppkg, "IterationDurations.Update")
 		roles := durationRoles(c)
@@ -615,4 +619,102 @@ func durationRoles(c *core.Ctx) *durRoles {
 	pick("min", &dr.min)
 	pick("max", &dr.max)
 	return dr
+}
+
+// extremesMoveOutwards implements C17.R7.
+func extremesMoveOutwards(c *core.Ctx, r *core.Report) {
+	ppkg := "internal/progress"
+	add := c.MustFn(ppkg, "IterationDurations.Add")
+	roles := durationRoles(c)
+	var dur ssa.Value
+	for _, p := range add.Params {
+		if b, ok := p.Type().Underlying().(*types.Basic); ok && b.Kind() == types.Int64 {
+			dur = p
+		}
+	}
+	loadedField := func(v ssa.Value) string {
+		call, ok := an.Strip(v).(*ssa.Call)
+		if !ok {
+			return ""
+		}
+		t := an.Callee(call)
+		if t == nil || t.Pkg == nil || t.Pkg.Pkg.Path() != "sync/atomic" || t.Name() != "Load" {
+			return ""
+		}
+		if f := an.FieldOfAddr(call.Call.Args[0]); f != nil {
+			return f.Name()
+		}
+		return ""
+	}
+	// does literal l establish "dur beyond the cell's value in direction dir" or "the cell is unset"?
+	establishes := func(l an.Lit, cell string, wantLarger bool) bool {
+		bo, ok := an.Strip(l.Cond).(*ssa.BinOp)
+		if !ok {
+			return false
+		}
+		x, y, op := an.Strip(bo.X), an.Strip(bo.Y), bo.Op
+		if y == dur {
+			x, y, op = y, x, mirrorCmp(op)
+		}
+		if x == dur && loadedField(y) == cell {
+			larger := ((op == token.GTR || op == token.GEQ) && l.Val) || ((op == token.LEQ || op == token.LSS) && !l.Val)
+			smaller := ((op == token.LSS || op == token.LEQ) && l.Val) || ((op == token.GEQ || op == token.GTR) && !l.Val)
+			return (wantLarger && larger) || (!wantLarger && smaller)
+		}
+		// the unset sentinel: cell == 0
+		if k, isK := y.(*ssa.Const); isK && k.Value != nil && k.Int64() == 0 && loadedField(x) == cell {
+			return (op == token.EQL && l.Val) || (op == token.NEQ && !l.Val)
+		}
+		return false
+	}
+	n := 0
+	paths, perr := an.DecisionPaths(add, 1024)
+	for _, op := range an.AtomicOps([]*ssa.Function{add}) {
+		if op.Op != "Store" || (op.Field.Name() != roles.max && op.Field.Name() != roles.min) {
+			continue
+		}
+		n++
+		wantLarger := op.Field.Name() == roles.max
+		what := "minimum"
+		if wantLarger {
+			what = "maximum"
+		}
+		key := "IterationDurations.Add#" + what + "-store"
+		if an.Strip(op.Call.Common().Args[1]) != dur {
+			r.Violation(key, an.Pos(c, op.Call), "the %s is set to %s, not to the duration being recorded", what, an.D().Of(op.Call.Common().Args[1]))
+			continue
+		}
+		if perr != nil {
+			r.Undecided(key, an.Pos(c, op.Call), "paths of Add not enumerable (%v): cannot show the store is guarded", perr)
+			continue
+		}
+		ok, seen := true, 0
+		for _, p := range paths {
+			at := -1
+			for i, b := range p.Blocks {
+				if b == op.Call.Block() {
+					at = i
+				}
+			}
+			if at < 0 {
+				continue
+			}
+			seen++
+			before := map[*ssa.BasicBlock]bool{}
+			for _, b := range p.Blocks[:at] {
+				before[b] = true
+			}
+			guarded := false
+			for _, l := range p.Lits {
+				if l.If != nil && before[l.If.Block()] && establishes(l, op.Field.Name(), wantLarger) {
+					guarded = true
+				}
+			}
+			if !guarded {
+				ok = false
+			}
+		}
+		r.Check(ok && seen > 0, key, an.Pos(c, op.Call), "the "+what+" is overwritten only when the duration lies beyond it (or it is unset)", "the "+what+" of the running period is overwritten on a path that has not compared the duration with it: an extreme recorded earlier — and not yet drained into the lifetime figures — is lost")
+	}
+	r.Floor("stores to the period's extremes in Add", n, 2)
 }
